@@ -33,7 +33,7 @@ ASSUMPTIONS = c01.ASSUMPTIONS
 
 
 def correspondence(ctx):
-    cases, res = c01.run_cases(ctx, ctx.n(250, 4000), rational_share=0.8, with_sources=False)
+    cases, res = c01.run_cases(ctx, ctx.n(160, 3500), rational_share=0.8, with_sources=False)
     # for C03 only derivatives are compared (value/error/sources are C01's): drop sources, keep numbers
     res.rule = ("random expression DAGs as in C01 (80% in the rational fragment); observed r.derivative(m) for EVERY measurement m "
                 "of the session (sources and unrelated ones) and every derived object r; compared in Q with Model.Core.deriv. "
@@ -67,14 +67,16 @@ def correspondence(ctx):
         for i in bad[0]:
             c = cases[idx[i]]
             res.disagreements.append({"name": "Model.Core.deriv vs DerivedValue.derivative", "kind": "program",
-                                      "case": {"steps": c["steps"], "corr": c["corr"]}})
+                                      "case": {"steps": c["steps"], "corr": c["corr"], "change": c.get("change")}})
         if len(bad) > 1 and bad[1]:
             compared += bad[1][0]
     res.extra["numbers_compared_in_Q"] = compared
     return res
 
 
-def oracle_program(steps, corr):
+def oracle_program(steps, corr, change=None):
+    """with [change] = (measurement, new value): after a first round of reads the central value is changed, every
+    result recalculated and all derivatives checked again at the NEW central values"""
     try:
         w = CL.execute(steps, corr)
     except Exception as e:
@@ -85,18 +87,27 @@ def oracle_program(steps, corr):
             d = w.objs[a].derivative(w.objs[b])
             if d != (1 if a == b else 0):
                 return "measurement {} .derivative(measurement {}) = {}".format(a, b, d)
-    for k in w.derived_ids():
-        try:
-            obs = w.observe(k, with_sources=False)
-        except Exception as e:
-            return "reading object {} raised {}: {}".format(k, type(e).__name__, str(e)[:100])
-        srcs = CL.reachable_measurements(w.model, k)
-        for m, d in obs["derivs"]:
-            if m not in srcs and d != 0:
-                return "object {} does not depend on measurement {} but derivative = {}".format(k, m, d)
-        why = CL.oracle_object(w.model, corr, dict(obs, error=None), derivs_only=True)
-        if why:
-            return "object {} ({}): {}".format(k, w.model[k], why)
+    model = w.model
+    for phase in (1, 2):
+        for k in (w.derived_ids() if phase == 1 else reversed(w.derived_ids())):
+            try:
+                obs = w.observe(k, with_sources=False)
+            except Exception as e:
+                return "reading object {} raised {}: {}".format(k, type(e).__name__, str(e)[:100])
+            srcs = CL.reachable_measurements(model, k)
+            pre = "" if phase == 1 else "after measurement {} := {} and recalculate(): ".format(*change)
+            for m, d in obs["derivs"]:
+                if m not in srcs and d != 0:
+                    return pre + "object {} does not depend on measurement {} but derivative = {}".format(k, m, d)
+            why = CL.oracle_object(model, corr, dict(obs, error=None), derivs_only=True)
+            if why:
+                return pre + "object {} ({}): {}".format(k, model[k], why)
+        if not change or phase == 2:
+            break
+        w.objs[change[0]].value = change[1]
+        for k in w.derived_ids():
+            w.objs[k].recalculate()
+        model = CL.with_value(w.model, *change)
     return None
 
 
@@ -111,25 +122,30 @@ def search(ctx, suspects, budget):
                 todo.append(json.load(open(os.path.join(d, f)))["case"])
     n = 0
     while len(out) < 3:
+        change = None
         if todo:
             c = todo.pop(0)
-            steps, corr = c["steps"], c["corr"]
+            steps, corr, change = c["steps"], c["corr"], c.get("change")
         elif time.time() - t0 > budget:
             break
         else:
             steps, corr = CL.gen_program(ctx.rng, rational_only=ctx.rng.random() < 0.25)
+            if ctx.rng.random() < 0.5:
+                change = c01.change_for(steps, corr, ctx.rng)
         n += 1
-        why = oracle_program(steps, corr)
+        why = oracle_program(steps, corr, change)
         if why:
-            steps, corr = c01.shrink_program(steps, corr, lambda s, c: oracle_program(s, c) is not None)
-            why = oracle_program(steps, corr) or why
-            out.append(Violation(ID, "program", {"steps": steps, "corr": corr}, why))
+            if change is None or oracle_program(steps, corr) is not None:
+                change = None
+                steps, corr = c01.shrink_program(steps, corr, lambda s, c: oracle_program(s, c) is not None)
+            why = oracle_program(steps, corr, change) or why
+            out.append(Violation(ID, "program", {"steps": steps, "corr": corr, "change": change}, why))
     ctx.notes.append("oracle: {} programs, every (object, measurement) derivative against finite differences".format(n))
     CL.reset_world()
     return out
 
 
 def replay(ctx, v):
-    why = oracle_program(v["case"]["steps"], v["case"]["corr"])
+    why = oracle_program(v["case"]["steps"], v["case"]["corr"], v["case"].get("change"))
     CL.reset_world()
     return Violation(ID, v["kind"], v["case"], why) if why else None
